@@ -288,9 +288,13 @@ def max_component(pairs):
 
 # ----------------------------------------------------------------------------- recording
 
-def record(args):
+_STRUCTS = []          # structure table of the current batch (inherited by the forked workers)
+
+
+def record(case, st=None):
     """Run one case through the real code and project every answer."""
-    st, case = args
+    if st is None:
+        st = _STRUCTS[case["sid"] - 1]
     c = {k: case[k] for k in ("id", "fam", "sid", "gaps", "via")}
     s3d = structure_of(st)
     index_of = {id(r): k + 1 for k, r in enumerate(s3d.residues)}
@@ -426,7 +430,9 @@ def finish(st, c):
 
 
 def record_all(structs, cases):
-    recs = lib.pmap(record, [(structs[c["sid"] - 1], c) for c in cases])
+    global _STRUCTS
+    _STRUCTS = structs
+    recs = lib.pmap(record, cases)
     return [finish(structs[c["sid"] - 1], c) for c in recs]
 
 
